@@ -111,7 +111,7 @@ def run_recovered(case, prop, sweep, direction="out"):
     saved_yield = TraphIteratorState.should_yield
     try:
         try:
-            if rec["kind"] == "disk_full":
+            if rec["kind"] in ("disk_full", "io_error"):
                 # the disk fills up in the middle of the history: from some append on, whatever makes a
                 # file grow fails with ENOSPC (rewrites succeed); the error travels through the library,
                 # the process gives up, and the folder is reopened once there is room again
@@ -126,7 +126,8 @@ def run_recovered(case, prop, sweep, direction="out"):
                     res.digest = h.hexdigest()
                     return res
                 n = len(log)
-                apps = [x + 1 for x in range(n) if log[x][2] == "append" and x >= spans[0][1]]
+                one_off = rec["kind"] == "io_error"  # one write of any kind refused once (EIO / ENOSPC), later ones succeed
+                apps = [x + 1 for x in range(n) if (one_off or log[x][2] == "append") and x >= spans[0][1]]
                 rng = random.Random(case.get("obs_seed", 0))
                 for k in sorted(set(rng.sample(apps, min(len(apps), rec.get("cuts", 3))))):
                     default, rules0 = _rules(cfg)
@@ -135,7 +136,10 @@ def run_recovered(case, prop, sweep, direction="out"):
                     SEAM.install()
                     SEAM.use(disk)
                     sut = O.Sut("sim", default, rules0, disk=disk)
-                    disk.arm_full(k - len(disk.log))
+                    if one_off:
+                        disk.arm_error(k - len(disk.log), rng.choice([errno.EIO, errno.EIO, errno.ENOSPC]))
+                    else:
+                        disk.arm_full(k - len(disk.log))
                     failed_in = None
                     for oi, op in enumerate(case["ops"]):
                         refs = O.resolve_refs(op, model2)
@@ -144,11 +148,12 @@ def run_recovered(case, prop, sweep, direction="out"):
                         try:
                             ob = O.exec_sut(sut, op, refs, model2)
                         except OSError as e:
-                            if e.errno != errno.ENOSPC:
+                            if "injected" not in str(e) and e.errno != errno.ENOSPC:
                                 raise
                             failed_in = oi
                             break
                         O.exec_model(model2, op, refs, ob)
+                    issued_before = model2.last  # ids issued by the requests that completed
                     try:
                         sut.close()
                     except Exception:
@@ -164,8 +169,26 @@ def run_recovered(case, prop, sweep, direction="out"):
                         continue
                     opened.append(t)
                     retry = case["ops"][failed_in:][: rec.get("retry", 0)]
-                    states.append(("disk full from write event %d/%d on (during request #%d), folder reopened" % (k, n, failed_in), t, d, retry, (snaps[i][3], rules)))
-                    res.stats["recovered_disk_full_states"] += 1
+                    label_ = ("write event %d/%d (%s) refused once" if one_off else "disk full from write event %d/%d (%s) on") % (k, n, log[k - 1][2]) + " (during request #%d), folder reopened" % failed_in
+                    if prop == "C12" and case["ops"][failed_in]["op"] not in ("clear", "reopen_overwrite"):
+                        # ids issued before the restart stay issued, whatever the failed request left behind
+                        # (unless that request was itself a clear, which starts the ids afresh)
+                        import struct as _struct
+
+                        hdr = _struct.unpack("I", bytes(d.files[t.lru_trie_path])[:4])[0] if len(d.files[t.lru_trie_path]) >= 4 else 0
+                        res.evals["C12.issued_before_failure"] += 1
+                        if hdr < issued_before:
+                            raise Violation("C12.issued_before_failure", "%s: %d ids had been issued by completed requests, the reopened store's counter says %d: the next creation re-issues an id" % (label_, issued_before, hdr))
+                    if prop == "C01" and case["ops"][failed_in]["op"] not in ("clear", "reopen_overwrite"):
+                        # what completed requests had stored is still there: the failed request may be
+                        # lost, the ones before it may not
+                        got_ = {l for _n, l in t.pages_iter()}
+                        res.evals["C01.completed_requests_survive_a_failure"] += 1
+                        lost_ = sorted(set(model2.pages) - got_)
+                        if lost_:
+                            raise Violation("C01.completed_requests_survive_a_failure", "%s: pages stored by completed requests are gone: %s" % (label_, short(lost_)))
+                    states.append((label_, t, d, retry, (snaps[i][3], rules)))
+                    res.stats["recovered_io_error_states" if one_off else "recovered_disk_full_states"] += 1
                 h.update(repr(("full", len(states))).encode())
             elif rec["kind"] == "crash":
                 log, spans, snaps, ok, why, model = CR.record_history(cfg, case["ops"])
@@ -302,8 +325,8 @@ def add_recovered(case, g, rng):
     """Turn a generated sequential case into a recovered-state case."""
     case["ops"] = [o for o in case["ops"] if o["op"] not in ("reopen",)][:16]
     x_ = rng.random()
-    if x_ < 0.15:
-        case["recovered"] = {"kind": "disk_full", "cuts": rng.choice([2, 3, 4]), "retry": rng.choice([0, 1, 2])}
+    if x_ < 0.25:
+        case["recovered"] = {"kind": rng.choice(["disk_full", "io_error", "io_error"]), "cuts": rng.choice([2, 3, 4]), "retry": rng.choice([0, 1, 2])}
     elif x_ < 0.55:
         # "retry": the caller re-submits the interrupted request (and up to two following ones) on the
         # recovered index and the sweep runs again; only on stores whose leftovers are unreferenced
